@@ -1,4 +1,5 @@
 import BlochVerif.Sem.Compat
+import BlochVerif.Sem.Scope
 /-!
 # C16 — the declared-type rule is the same rule in every position
 
@@ -118,5 +119,201 @@ theorem rule_spelled_out (e a : Ty) :
 example : rejectsInit (Ty.prim .int).toTI (Ty.cls 0).toTI = true ∧ rejectsArg (Ty.cls 1).toTI (Ty.cls 0).toTI = true ∧
     rejectsReturn (Ty.cls 0).toTI (Ty.cls 1).toTI = false ∧ rejectsAssign (Ty.prim .long).toTI (Ty.prim .int).toTI = false := by
   decide
+
+end BlochVerif.Props.C16
+
+/-! ## declaration and `final` rules: the analyser's walk is the rule system, at every position -/
+namespace BlochVerif.Props.C16
+open BlochVerif.Sem
+
+theorem checkExpr_sound (g : Scopes) : ∀ (e : SExpr), checkExpr g e = .ok () → WSExpr g e := by
+  intro e
+  induction e with
+  | lit => intro _; exact .lit
+  | var n =>
+    intro h
+    simp only [checkExpr] at h
+    cases hl : lookupSym g n with
+    | none => rw [hl] at h; cases h
+    | some f => exact .var hl
+  | assign n e ih =>
+    intro h
+    simp only [checkExpr] at h
+    cases hl : lookupSym g n with
+    | none => rw [hl] at h; cases h
+    | some f =>
+      cases f with
+      | true => rw [hl] at h; cases h
+      | false => rw [hl] at h; exact .assign hl (ih h)
+  | post n =>
+    intro h
+    simp only [checkExpr] at h
+    cases hl : lookupSym g n with
+    | none => rw [hl] at h; cases h
+    | some f =>
+      cases f with
+      | true => rw [hl] at h; cases h
+      | false => exact .post hl
+  | un e ih => intro h; simp only [checkExpr] at h; exact .un (ih h)
+  | bin a b iha ihb =>
+    intro h
+    simp only [checkExpr] at h
+    cases ha : checkExpr g a with
+    | error er => rw [ha] at h; cases h
+    | ok u => rw [ha] at h; exact .bin (iha ha) (ihb h)
+
+theorem checkExpr_complete {g : Scopes} {e : SExpr} (h : WSExpr g e) : checkExpr g e = .ok () := by
+  induction h with
+  | lit => rfl
+  | var hl => simp [checkExpr, hl]
+  | assign hl _ ih => simp [checkExpr, hl, ih]
+  | post hl => simp [checkExpr, hl]
+  | un _ ih => simp [checkExpr, ih]
+  | bin _ _ iha ihb => simp [checkExpr, iha, ihb]
+
+theorem checkExpr_iff (g : Scopes) (e : SExpr) : checkExpr g e = .ok () ↔ WSExpr g e :=
+  ⟨checkExpr_sound g e, checkExpr_complete⟩
+
+theorem checkStmt_sound : ∀ (s : SStmt) (g g' : Scopes), checkStmt g s = .ok g' → WS g s g' := by
+  intro s
+  induction s with
+  | skip => intro g g' h; simp only [checkStmt] at h; cases h; exact .skip
+  | seq a b iha ihb =>
+    intro g g' h
+    simp only [checkStmt] at h
+    cases ha : checkStmt g a with
+    | error er => rw [ha] at h; cases h
+    | ok g1 => rw [ha] at h; exact .seq (iha g g1 ha) (ihb g1 g' h)
+  | scope s ih =>
+    intro g g' h
+    simp only [checkStmt] at h
+    cases hs : checkStmt ([] :: g) s with
+    | error er => rw [hs] at h; cases h
+    | ok g1 => rw [hs] at h; cases h; exact .scope (ih _ g1 hs)
+  | decl f n init =>
+    intro g g' h
+    simp only [checkStmt] at h
+    cases hl : lookupSym g n with
+    | some x => rw [hl] at h; cases h
+    | none =>
+      rw [hl] at h
+      cases init with
+      | none =>
+        cases f with
+        | true => simp at h
+        | false => simp at h; cases h; exact .declNoInit hl
+      | some e =>
+        simp only [Option.isNone_some, Bool.and_false, Bool.false_eq_true, if_false] at h
+        cases he : checkExpr g e with
+        | error er => rw [he] at h; cases h
+        | ok u => rw [he] at h; cases h; exact .declInit hl ((checkExpr_iff g e).mp he)
+  | assign n e =>
+    intro g g' h
+    simp only [checkStmt] at h
+    cases hl : lookupSym g n with
+    | none => rw [hl] at h; cases h
+    | some f =>
+      cases f with
+      | true => rw [hl] at h; cases h
+      | false =>
+        rw [hl] at h
+        cases he : checkExpr g e with
+        | error er => rw [he] at h; cases h
+        | ok u => rw [he] at h; cases h; exact .assign hl ((checkExpr_iff g e).mp he)
+  | expr e =>
+    intro g g' h
+    simp only [checkStmt] at h
+    cases he : checkExpr g e with
+    | error er => rw [he] at h; cases h
+    | ok u => rw [he] at h; cases h; exact .expr ((checkExpr_iff g e).mp he)
+  | ite c t e iht ihe =>
+    intro g g' h
+    simp only [checkStmt] at h
+    cases hc : checkExpr g c with
+    | error er => rw [hc] at h; cases h
+    | ok u =>
+      rw [hc] at h
+      cases ht : checkStmt g t with
+      | error er => rw [ht] at h; cases h
+      | ok g1 => rw [ht] at h; exact .ite ((checkExpr_iff g c).mp hc) (iht g g1 ht) (ihe g1 g' h)
+  | «while» c b ihb =>
+    intro g g' h
+    simp only [checkStmt] at h
+    cases hc : checkExpr g c with
+    | error er => rw [hc] at h; cases h
+    | ok u => rw [hc] at h; exact .while ((checkExpr_iff g c).mp hc) (ihb g g' h)
+  | «for» init c inc b ihi ihb =>
+    intro g g' h
+    simp only [checkStmt] at h
+    cases hi : checkStmt ([] :: g) init with
+    | error er => rw [hi] at h; dsimp only at h; cases h
+    | ok g1 =>
+      rw [hi] at h; dsimp only at h
+      cases hc : checkExpr g1 c with
+      | error er => rw [hc] at h; dsimp only at h; cases h
+      | ok u =>
+        rw [hc] at h; dsimp only at h
+        cases hn : checkExpr g1 inc with
+        | error er => rw [hn] at h; dsimp only at h; cases h
+        | ok u' =>
+          rw [hn] at h; dsimp only at h
+          cases hb : checkStmt g1 b with
+          | error er => rw [hb] at h; dsimp only at h; cases h
+          | ok g2 =>
+            rw [hb] at h; dsimp only at h; cases h
+            exact .for (ihi _ g1 hi) ((checkExpr_iff g1 c).mp hc) ((checkExpr_iff g1 inc).mp hn) (ihb g1 g2 hb)
+  | ternary c t e iht ihe =>
+    intro g g' h
+    simp only [checkStmt] at h
+    cases hc : checkExpr g c with
+    | error er => rw [hc] at h; cases h
+    | ok u =>
+      rw [hc] at h
+      cases ht : checkStmt g t with
+      | error er => rw [ht] at h; cases h
+      | ok g1 => rw [ht] at h; exact .ternary ((checkExpr_iff g c).mp hc) (iht g g1 ht) (ihe g1 g' h)
+  | echo e =>
+    intro g g' h
+    simp only [checkStmt] at h
+    cases he : checkExpr g e with
+    | error er => rw [he] at h; cases h
+    | ok u => rw [he] at h; cases h; exact .echo ((checkExpr_iff g e).mp he)
+  | ret e =>
+    intro g g' h
+    simp only [checkStmt] at h
+    cases he : checkExpr g e with
+    | error er => rw [he] at h; cases h
+    | ok u => rw [he] at h; cases h; exact .ret ((checkExpr_iff g e).mp he)
+
+theorem checkStmt_complete {g g' : Scopes} {s : SStmt} (h : WS g s g') : checkStmt g s = .ok g' := by
+  induction h with
+  | skip => rfl
+  | seq _ _ iha ihb => simp only [checkStmt, iha, ihb]
+  | scope _ ih => simp only [checkStmt, ih]
+  | declInit hl he => simp [checkStmt, hl, (checkExpr_iff _ _).mpr he]
+  | declNoInit hl => simp [checkStmt, hl]
+  | assign hl he => simp [checkStmt, hl, (checkExpr_iff _ _).mpr he]
+  | expr he => simp [checkStmt, (checkExpr_iff _ _).mpr he]
+  | ite hc _ _ iht ihe => simp [checkStmt, (checkExpr_iff _ _).mpr hc, iht, ihe]
+  | «while» hc _ ihb => simp [checkStmt, (checkExpr_iff _ _).mpr hc, ihb]
+  | «for» _ hc hn _ ihi ihb => simp [checkStmt, ihi, (checkExpr_iff _ _).mpr hc, (checkExpr_iff _ _).mpr hn, ihb]
+  | ternary hc _ _ iht ihe => simp [checkStmt, (checkExpr_iff _ _).mpr hc, iht, ihe]
+  | echo he => simp [checkStmt, (checkExpr_iff _ _).mpr he]
+  | ret he => simp [checkStmt, (checkExpr_iff _ _).mpr he]
+
+/-- The analyser's walk accepts a statement exactly when the declaration and `final` rules hold at every
+position in it — statement, nested expression, loop header, branch of a ternary statement, inner block. -/
+theorem declaration_and_final_rules_enforced_everywhere_and_only_there (g g' : Scopes) (s : SStmt) :
+    checkStmt g s = .ok g' ↔ WS g s g' :=
+  ⟨checkStmt_sound s g g', checkStmt_complete⟩
+
+/-! non-vacuity: a final written in a for-header update, and the same program with a plain variable -/
+example : checkStmt [[]] (.seq (.decl true "k" (some .lit)) (.for (.decl false "i" (some .lit)) (.var "i") (.assign "k" .lit) .skip)) =
+    .error (.finalWrite "k") := by
+  simp [checkStmt, checkExpr, lookupSym, declareSym]
+example : (checkStmt [[]] (.seq (.decl false "k" (some .lit)) (.for (.decl false "i" (some .lit)) (.var "i") (.assign "k" .lit) .skip))).isOk = true := by
+  decide
+example : checkStmt [[]] (.decl false "x" (some (.bin (.var "x") .lit))) = .error (.undeclared "x") := by
+  simp [checkStmt, checkExpr, lookupSym]
 
 end BlochVerif.Props.C16
